@@ -239,12 +239,13 @@ def set_or_list(items):
 def parse_tuples(out, tag):
     """PrintT output may interleave between workers; match on balanced << >>"""
     res = []
-    key = '<<"%s"' % tag
+    key = re.compile(r'<<\s*"%s"' % re.escape(tag))   # long tuples are pretty-printed as `<< "tag",`
     pos = 0
     while True:
-        i = out.find(key, pos)
-        if i < 0:
+        mm = key.search(out, pos)
+        if mm is None:
             break
+        i = mm.start()
         depth = 0
         j = i
         n = len(out)
